@@ -416,10 +416,9 @@ def rule_iluk_level(ck, units):
             levp = next(d for d in f.params if f.decl(d).get('n') == 'lev')
             for w in vals:
                 obj = show(unwrap(w['x']).get('b'))
-                mins = [n for n in f.nodes.values() if n['k'] == 'bin' and n['op'] == '=' and unwrap(n['x'])['k'] == 'mem' and unwrap(n['x']).get('n') == 'lev'
-                        and show(unwrap(n['x']).get('b')) == obj and unwrap(n['y'])['k'] == 'call' and (unwrap(n['y']).get('f') or '') == 'std::min'
-                        and any(x['k'] == 'ref' and x['d'] == levp for x in walk(n['y']))
-                        and any(x['k'] == 'mem' and x.get('n') == 'lev' for x in walk(n['y']))]
+                import idioms
+                mins = [n for n, V, E in idioms.extremum_updates(f, f.body, 'min') if unwrap(V)['k'] == 'mem' and unwrap(V).get('n') == 'lev' and show(unwrap(V).get('b')) == obj
+                        and any(x['k'] == 'ref' and x['d'] == levp for x in idioms.deep_nodes(f, E))]
                 gw = c01.guards_of(f, w)
                 ok = any(c01.guards_of(f, m) == gw for m in mins)
                 det = ''
